@@ -34,6 +34,34 @@ def to_case(i, cs):
     return {"id": i, "base": [str(x) for x in base], "ctor": ctor, "steps": [sc.SETUP, sc.SOLVE], "c01": 1 if cs["rate"] else 0}
 
 
+def pairwise_pick(cases, n):
+    """the sample that is actually run: greedy pairwise coverage over the factors of a configuration (every pair of option values
+    that occurs in the generated walks is run at least once if the budget allows), then the shuffled rest"""
+    if len(cases) <= n:
+        return cases
+
+    def factors(c):
+        o, b = c["ctor"], c["base"]
+        f = {"ext": o["ext"], "fmg": o["fmg"], "L": o["L"], "take": o["take"], "caches": str(o["caches"]), "misc": o["misc"] % 3, "abs": o["absOn"], "rel": o["relOn"]}
+        for k in ("--geometry", "--alpha_coeff", "--beta_coeff", "--DirBC_Interior", "--nr_exp", "--ntheta_exp"):
+            f[k] = b[b.index(k) + 1]
+        return sorted(f.items())
+
+    def pairs(c):
+        fs = factors(c)
+        return {(fs[i], fs[j]) for i in range(len(fs)) for j in range(i + 1, len(fs))}
+    covered, picked, rest = set(), [], list(cases)
+    ps = {id(c): pairs(c) for c in rest}
+    while rest and len(picked) < n:
+        best = max(rest, key=lambda c: len(ps[id(c)] - covered))      # ties: first in the shuffled order
+        if not ps[id(best)] - covered:
+            break
+        picked.append(best)
+        covered |= ps[id(best)]
+        rest.remove(best)
+    return picked + rest[:n - len(picked)]
+
+
 def run(rep, tier):
     thorough = tier == "thorough"
     vlib.sany("Solver")
@@ -66,7 +94,7 @@ def run(rep, tier):
                 cases.append(to_case(len(cases) + 1, cs))
     rng = random.Random(vlib.seed())
     rng.shuffle(cases)
-    cases = cases[:(600 if thorough else 40)]
+    cases = pairwise_pick(cases, 600 if thorough else 40)
     for i, c in enumerate(cases):
         c["id"] = i + 1
         rep.case(key=json.dumps([c["base"], c["ctor"]], sort_keys=True), nontrivial=True)
